@@ -4,7 +4,7 @@ from ._core_common import *  # noqa
 PROP = "C03"
 SCHEDULERS = ("eager", "rr")
 OPTS = dict(multi=True, mgroup=True, p_single_group=0.3, alias=True, combiner=True, fsm=True, nested_methods=True, p_fresh=0.96)
-BOUNDS = {"quick": "exhaustive small family (2 transactions x call through {direct, alias, nonexclusive method, exclusive method, enable_call} in If/Else alternatives: 93 designs) + 40 batches x 12 random designs (<=3 transactions + nested, <=5 methods, If/Elif/Else, sibling If, Switch, FSM, enable_call, aliases, combiners, nested bodies), "
+BOUNDS = {"quick": "6 designs with validate_arguments behind a condition() branch (outer called plainly / under m.If / with enable_call, blocking / non-blocking) + fixed relation family (61 designs: cross-module add_conflict in same-position alternatives of If/Switch/FSM, prioritised method conflicts lifted over an exclusive caller pair, bodies with two ready-dependency sources) + exhaustive small family (2 transactions x call through {direct, alias, nonexclusive method, exclusive method, enable_call} in If/Else alternatives: 93 designs, plus 42 designs with two non-exclusive call sites of one exclusive method through the same / different Method objects) + 40 batches x 12 random designs (<=3 transactions + nested, <=5 methods, If/Elif/Else, sibling If, Switch, FSM, enable_call, aliases, combiners, nested bodies), "
                    "both schedulers where applicable; per design all inputs and all register states",
           "thorough": "400 batches x 25 random designs, VERIF_SEED-seeded"}
 OUTSIDE = OUTSIDE_COMMON
